@@ -49,8 +49,12 @@ func init() {
 		// go-describe renders values for error messages only: opaque text
 		"github.com/kstenerud/go-describe.D":        func(fr *frame, args []value) value { return "<described value>" },
 		"github.com/kstenerud/go-describe.Describe": func(fr *frame, args []value) value { return "<described value>" },
-		"sort.SliceStable":                          extSortSlice,
-		"sort.Slice":                                extSortSlice,
+		// regexp.Compile of a concrete pattern is deterministic and slow to
+		// interpret: compile once per worker, outside the undo trail (like a
+		// package initialiser), and hand out the same *Regexp afterwards.
+		"regexp.Compile":   extRegexpCompile,
+		"sort.SliceStable": extSortSlice,
+		"sort.Slice":       extSortSlice,
 		"fmt.Fprintf": func(fr *frame, args []value) value {
 			// format with the Sprintf model, then call the writer's real Write method
 			text := fr.i.sprintf(args[1], args[2].([]value))
@@ -464,4 +468,31 @@ func (i *interpreter) waitGroup(p *value) *int {
 		i.waitGroups[p] = c
 	}
 	return c
+}
+
+func extRegexpCompile(fr *frame, args []value) value {
+	i := fr.i
+	pat, ok := args[0].(string)
+	fn := i.prog.ImportedPackage("regexp").Func("Compile")
+	run := func() value {
+		i.bypassExternal = "regexp.Compile"
+		defer func() { i.bypassExternal = "" }()
+		return callSSA(i, fr, 0, fn, args, nil)
+	}
+	if !ok {
+		return run() // symbolic pattern: interpret as is
+	}
+	if v, hit := i.regexCache[pat]; hit {
+		return v
+	}
+	i.inInit++
+	r := func() value {
+		defer func() { i.inInit-- }()
+		return run()
+	}()
+	if i.regexCache == nil {
+		i.regexCache = map[string]value{}
+	}
+	i.regexCache[pat] = r
+	return r
 }
